@@ -1081,7 +1081,7 @@ def r14_m2m_through_naming(ctx, rule_id='R-C01.14'):
     ctx.floor('from_/to_ naming sites in create_field', len(sites), 1)
     # the innermost if statement whose body holds the naming statements
     inner_ifs = [i for i in walk_no_nested(f.node) if isinstance(i, ast.If)
-                 and any(n.ast in i.body for n in sites)]
+                 and any(n.ast in i.body or n.ast in i.orelse for n in sites)]
     tests = [t for t in g.nodes if t.kind in ('test', 'operand') and
              any(t.stmt is i for i in inner_ifs) and
              isinstance(t.ast, ast.Compare)]
